@@ -286,6 +286,12 @@ Section TallyQ.
   Lemma mean_app1 : forall xs x, mean (xs ++ [x]) == (rsum 1 xs + x) / (nQ xs + 1).
   Proof. intros. unfold mean. rewrite sum1_app1, nQ_app1, rsum1_sum1. reflexivity. Qed.
 
+  Lemma mean_single : forall x, mean [x] == x.
+  Proof. intros. unfold mean, nQ. cbn [sum1 length]. change (inject_Z (Z.of_nat 1)) with 1. field. Qed.
+
+  Lemma nQ_cons_neq0 : forall y ys, ~ nQ (y :: ys) == 0.
+  Proof. intros y ys E. assert (0 < nQ (y :: ys)) by (apply nQ_pos; congruence). lra. Qed.
+
   Lemma acc_ok_step : forall ys s x, acc_ok ys s -> acc_ok (ys ++ [x]) (tnext s x).
   Proof.
     intros ys s x [Hn Hs H1 H2 H3 H4 Hmn Hmx].
@@ -293,35 +299,36 @@ Section TallyQ.
     { rewrite Hn, inject_Z_plus. reflexivity. }
     assert (NN : 0 <= nQ ys) by apply nQ_nonneg.
     assert (N1 : ~ nQ ys + 1 == 0) by lra.
-    unfold central in *.
-    rewrite csum2_raw in H2. rewrite csum3_raw in H3. rewrite csum4_raw in H4.
-    rewrite mean_raw in H1, H2, H3, H4.
     constructor; unfold tnext; cbn [tn tsum tm1 tm2 tm3 tm4 tmin tmax].
     - rewrite Hn, app_length. cbn [length]. lia.
     - rewrite Hs, sum1_app1. reflexivity.
-    - rewrite mean_app1, EN.
+    - destruct ys as [| y ys'].
+      + cbn [app]. rewrite mean_single, EN, nQ_nil. cbn in H1. rewrite H1. field.
+      + pose proof (nQ_cons_neq0 y ys').
+        rewrite mean_app1, EN. rewrite mean_raw in H1. rewrite H1. field. auto.
+    - destruct ys as [| y ys'].
+      + cbn [app]. unfold central. cbn [csum]. rewrite mean_single, EN, nQ_nil.
+        cbn in H1, H2. rewrite H1, H2. field.
+      + pose proof (nQ_cons_neq0 y ys').
+        unfold central in *. rewrite csum2_raw in *. rewrite !rsum_app1, nQ_app1, mean_app1, EN.
+        rewrite mean_raw in H1, H2. rewrite H2, H1. field. auto.
+    - change (inject_Z (-3)) with (-3 # 1). change (inject_Z 1) with 1. change (inject_Z 2) with 2.
       destruct ys as [| y ys'].
-      + cbn in H1. rewrite H1. cbn [rsum]. rewrite nQ_nil. field.
-      + assert (~ nQ (y :: ys') == 0) by (pose proof (nQ_pos (y :: ys')); intros E; rewrite E in *; intuition (try congruence); lra).
-        rewrite H1. field. auto.
-    - unfold central. rewrite csum2_raw, !rsum_app1, nQ_app1, mean_app1, EN.
-      destruct ys as [| y ys'].
-      + cbn in H1, H2. rewrite H1, H2. cbn [rsum]. rewrite nQ_nil. field.
-      + assert (~ nQ (y :: ys') == 0) by (pose proof (nQ_pos (y :: ys')); intros E; rewrite E in *; intuition (try congruence); lra).
-        rewrite H2, H1. field. auto.
-    - unfold central. rewrite csum3_raw, !rsum_app1, nQ_app1, mean_app1, EN.
-      change (inject_Z (-3)) with (-3 # 1). change (inject_Z 1) with 1. change (inject_Z 2) with 2.
-      destruct ys as [| y ys'].
-      + cbn in H1, H2, H3. rewrite H1, H2, H3. cbn [rsum]. rewrite nQ_nil. field.
-      + assert (~ nQ (y :: ys') == 0) by (pose proof (nQ_pos (y :: ys')); intros E; rewrite E in *; intuition (try congruence); lra).
-        rewrite H3, H2, H1. field. auto.
-    - unfold central. rewrite csum4_raw, !rsum_app1, nQ_app1, mean_app1, EN.
-      change (inject_Z (-4)) with (-4 # 1). change (inject_Z 1) with 1. change (inject_Z 3) with 3.
+      + cbn [app]. unfold central. cbn [csum]. rewrite mean_single, EN, nQ_nil.
+        cbn in H1, H2, H3. rewrite H1, H2, H3. field.
+      + pose proof (nQ_cons_neq0 y ys').
+        unfold central in *. rewrite csum2_raw in H2. rewrite csum3_raw in *.
+        rewrite !rsum_app1, nQ_app1, mean_app1, EN.
+        rewrite mean_raw in H1, H2, H3. rewrite H3, H2, H1. field. auto.
+    - change (inject_Z (-4)) with (-4 # 1). change (inject_Z 1) with 1. change (inject_Z 3) with 3.
       change (inject_Z 6) with 6.
       destruct ys as [| y ys'].
-      + cbn in H1, H2, H3, H4. rewrite H1, H2, H3, H4. cbn [rsum]. rewrite nQ_nil. field.
-      + assert (~ nQ (y :: ys') == 0) by (pose proof (nQ_pos (y :: ys')); intros E; rewrite E in *; intuition (try congruence); lra).
-        rewrite H4, H3, H2, H1. field. auto.
+      + cbn [app]. unfold central. cbn [csum]. rewrite mean_single, EN, nQ_nil.
+        cbn in H1, H2, H3, H4. rewrite H1, H2, H3, H4. field.
+      + pose proof (nQ_cons_neq0 y ys').
+        unfold central in *. rewrite csum2_raw in H2. rewrite csum3_raw in H3. rewrite csum4_raw in *.
+        rewrite !rsum_app1, nQ_app1, mean_app1, EN.
+        rewrite mean_raw in H1, H2, H3, H4. rewrite H4, H3, H2, H1. field. auto.
     - (* minimum *)
       destruct (tn s =? 0)%Z eqn:E0.
       + apply Z.eqb_eq in E0. assert (ys = []) by (destruct ys; [reflexivity | cbn [length] in Hn; lia]). subst ys.
